@@ -2,6 +2,7 @@ package main
 
 import (
 	"fmt"
+	"go/token"
 	"strings"
 
 	"golang.org/x/tools/go/ssa"
@@ -263,6 +264,8 @@ func runC06(c *Ctx) {
 	addersRule(c, "R-C06-ARMS")
 	applierArmsRule(c, "R-C06-ARMS")
 	refusalsRule(c, "R-C06-REFUSALS")
+	dispatcherRule(c, "R-C06-REFUSALS")
+	updateCallersRule(c, "R-C06-SYNCUPDATE")
 	defaultUpdateRule(c, "R-C06-REFUSALS")
 
 	// ---- R-C06-ADDSTORE
@@ -610,4 +613,95 @@ func refusalsRule(c *Ctx, ruleID string, only ...string) {
 			L.Ok(ruleID, "lockedMap."+f.name, fmt.Sprintf("%d declining return(s), each behind one of {%s}", nRef, reasons), fn.Pos())
 		})
 	}
+}
+
+// dispatcherRule: the sharded map adds nothing to the decisions of a shard - Get/Set/Update/Del/Expiration
+// pick the shard by key %% numShards, call the shard's method of the same name once with their own
+// arguments on every path, and return its results unchanged. A pre-check in the dispatcher (e.g. "probe
+// with get first") brings in another method's refusal reasons: an overwrite of an expired but unswept key
+// would be refused as absent, and the rewritten item stays hidden by the old TTL.
+func dispatcherRule(c *Ctx, ruleID string) {
+	L, P := c.L, c.P
+	for _, d := range []struct{ name, callee string }{{"Get", "get"}, {"Set", "Set"}, {"Update", "Update"}, {"Del", "Del"}, {"Expiration", "Expiration"}} {
+		d := d
+		c.Group(ruleID, "shardedMap."+d.name+"#dispatch", func() {
+			fn := P.Fn("ristretto", "shardedMap", d.name)
+			L.Analysed(fname(fn))
+			tb := newTB(fn)
+			var calls []ssa.CallInstruction
+			var problems []string
+			for _, ci := range allCalls(fn) {
+				sc := staticCallee(ci.Common())
+				if sc == nil || !isModuleFunc(sc) {
+					continue
+				}
+				if fname(origin(sc)) == "lockedMap."+d.callee {
+					calls = append(calls, ci)
+				} else {
+					problems = append(problems, "also calls "+fname(origin(sc)))
+				}
+			}
+			if len(calls) != 1 {
+				problems = append(problems, fmt.Sprintf("%d calls of lockedMap.%s (want one)", len(calls), d.callee))
+			} else {
+				call := calls[0]
+				nilItem := edgesWhere(fn, tb, "eq(p[1],c[nil])", nil, true) // Set(nil) stores nothing: a documented refusal
+				if b, _ := mustPass(entryPos(fn), isInstr(call), cutSet(nilItem)); b != nil {
+					problems = append(problems, "the shard's method is not called on every path")
+				}
+				a := call.Common().Args
+				for i := 1; i < len(a); i++ {
+					if want := fmt.Sprintf("p[%d]", i); tb.T(a[i]).String() != want {
+						problems = append(problems, "argument "+fmt.Sprint(i)+" is "+tb.T(a[i]).String()+", not the dispatcher's own")
+					}
+				}
+				for _, r := range returnsOf(fn) {
+					if hit, _ := reach(entryPos(fn), isInstr(r), nil, cutSet(nilItem)); hit == nil {
+						continue // the nil-item return
+					}
+					for j, v := range returnValues(r) {
+						t := tb.T(v).String()
+						ct := tb.T(call.(ssa.Value)).String()
+						if t != ct && t != fmt.Sprintf("ext[%d](%s)", j, ct) {
+							problems = append(problems, "returns "+t+" instead of the shard's result")
+						}
+					}
+				}
+			}
+			L.Check(len(problems) == 0, ruleID, "shardedMap."+d.name+"#dispatch", "one call of the shard's "+d.callee+" with the same arguments on every path, result returned unchanged", strings.Join(problems, "; "), fn.Pos())
+		})
+	}
+}
+
+// updateCallersRule: an overwrite is applied synchronously by SetWithTTL and by nobody else - the applier
+// never writes a buffered item over a resident entry (store.Update has SetWithTTL as its only caller): a
+// buffered item carries the value and the call-time expiration of an OLDER write.
+func updateCallersRule(c *Ctx, ruleID string) {
+	L, P := c.L, c.P
+	c.Group(ruleID, "store.Update#callers", func() {
+		var who []string
+		var pos token.Pos
+		n := 0
+		for _, fn := range P.SrcFuncs {
+			if fn.Pkg != P.Pkgs["ristretto"] {
+				continue
+			}
+			for _, ci := range allCalls(fn) {
+				cc := ci.Common()
+				isUpd := cc.IsInvoke() && recvName(cc.Value.Type()) == "store" && cc.Method.Name() == "Update"
+				if sc := staticCallee(cc); sc != nil && fname(origin(sc)) == "shardedMap.Update" {
+					isUpd = true
+				}
+				if !isUpd {
+					continue
+				}
+				n++
+				if fname(fn) != "Cache.SetWithTTL" {
+					who = append(who, fname(fn))
+					pos = ci.Pos()
+				}
+			}
+		}
+		L.Check(len(who) == 0 && n >= 1, ruleID, "store.Update#callers", "store.Update is called by SetWithTTL only", "store.Update is also called from "+strings.Join(who, ", ")+": a buffered (older) write can overwrite a newer value together with its expiration", pos)
+	})
 }
